@@ -70,7 +70,7 @@ Ltac c08_rewrite_facts :=
 
 Ltac c08_leaf :=
   match goal with
-  | |- crash_in _ _ => solve [auto 1 with c08gen nocore]
+  | |- crash_in _ _ => solve [auto 2 with c08gen nocore]
   | |- crash_in _ (OK _) => exact I
   | |- crash_in _ (Alert _) => exact I
   | |- crash_in _ (Raised _) => exact I
